@@ -33,8 +33,11 @@ def length_from_roll_pass_positions(self: Transport, cycle):
 
     from pyroll.core import RollPass
 
-    next_pass = self.next_of(RollPass)
-    prev_pass = self.prev_of(RollPass)
+    try:
+        next_pass = self.next_of(RollPass)
+        prev_pass = self.prev_of(RollPass)
+    except (ValueError, IndexError):
+        return None  # no parent sequence or no roll pass on one side: the positions can not provide a length
 
     if next_pass.has_value("location") and prev_pass.has_value("location"):
         entry = next_pass.entry_point if next_pass.has_value("entry_point") else 0
